@@ -43,6 +43,15 @@ def run(ctx: Ctx):
     ctx.section(check_inputs_first, ctx)
     ctx.section(check_qubit_lists, ctx)
     ctx.section(check_ret_names, ctx)
+    ctx.section(
+        fx.check_frozen,
+        ctx,
+        "FX-FROZEN",
+        "ast2logic.typing.Arg",
+        "the objects in QlassF.args are the ones the translator bound in its environment: a change made through one "
+        "holder changes the widths / bit names encode_input, input_qubits and the compiler read through the others, "
+        "which then disagree about where each argument's bits are",
+    )
     rep = fx.PurityReport(ctx, "FX-PARAM", c10.designed_mutators(ctx))
     for short in ("types.format_outcome", "types.interpret_as_qtype", "qlassfun.QlassF.decode_output", "qcircuit.qcircuitwrapper.QCircuitWrapper.decode_counts", "qlassfun.QlassF.encode_input"):
         fi = repo.func(short)
